@@ -100,6 +100,7 @@ class Sim:
         self.max_total_events = 6 * 10 ** 6
         self.eager_wake = 0.0        # probability that a put() executed by the driver (receive context) runs the woken thread immediately
         self.eager_switches = 0
+        self.reentrant_depth = 0     # > 0 while a frame is being handled re-entrantly inside a send call (no injected hold may start there)
         self.eager_depth = 0         # > 0 while a handler of the driver is suspended in favour of a woken thread
 
     # ---- clock ----------------------------------------------------------------------
